@@ -1,1 +1,555 @@
-fn main() {}
+/*!
+C10 — rolling files: acknowledged events are durable and no record is ever mangled.
+
+Instrument: the real `emit_file` worker (`VerifWorker`, hook H-F) over the fault-injecting
+in-memory filesystem of `shared/fakefs.rs`. The harness plays the batcher: on `Err(Some(rem))`
+it re-submits exactly `rem` (bounded), on `Err(None)` the batch is given up (not acknowledged).
+
+Workload: seeded histories of 1–12 batches (1–8 self-describing records `id:len:payload` + separator
+each, payload 0 B–4 KiB, never containing the separator byte), clock advances, clean restarts
+with and without `reuse_files`. For every history a fault-free run counts the filesystem
+operations; then **every op index × every fault kind** is replayed (error; for writes: three
+"short write then error" splits and a benign short write; crash × {lose all unsynced, keep all,
+seeded prefix} × {restart with reuse, restart without}), plus seeded sequences of 2–3 faults.
+
+Oracle, evaluated after every `on_batch` attempt, after every restart and after every crash:
+ (1) every record of every batch whose retry chain ended `Ok` is a complete, byte-identical record
+     (body + separator) inside the *synced* bytes of some file (or of a file that retention later
+     deleted through the API);
+ (2) splitting every file (synced + unsynced) on the separator, each piece is empty, a complete
+     submitted record, or a proper prefix of one submitted record that ends exactly at a logged
+     cut (interrupted write / crash truncation) whose lost bytes complete that same record;
+ (3) records of a batch that failed and was retried to `Ok` are present complete on a clean
+     boundary (a consequence of 1+2, counted separately as evidence).
+*/
+
+#[path = "../shared/fakefs.rs"]
+mod fakefs;
+
+use std::collections::{HashMap, HashSet};
+
+use fakefs::*;
+use vcommon::rec::FakeClock;
+use vcommon::*;
+
+const SEPS: [&[u8]; 4] = [b"\n", b"\x1e", b"|", b"\0"];
+const MAX_RETRIES: usize = 6;
+
+#[derive(Clone, Debug)]
+enum Step {
+    Batch { adv_ms: u64, retry_adv_ms: u64, recs: Vec<usize> },
+    Restart { reuse: bool },
+}
+
+struct Hist {
+    idx: u64,
+    cfg: Cfg,
+    reuse0: bool,
+    start: u64,
+    dir_exists: bool,
+    steps: Vec<Step>,
+    /// all records, separator included; index = record id
+    recs: Vec<Vec<u8>>,
+}
+
+fn gen_history(seed: u64, idx: u64) -> Hist {
+    let mut g = Rng::stream(seed, &[10, 1, idx]);
+    let sep: &'static [u8] = if idx % 2 == 0 { SEPS[0] } else { SEPS[1 + g.usize(3)] };
+    let sepb = sep[0];
+    let max_size = *g.pick(&[48usize, 300, 2_000, 9_000, 1 << 20, 1 << 30]);
+    let max_files = if g.chance(1, 4) { 2 + g.usize(3) } else { 1000 };
+    let roll = *g.pick(&[Roll::Minute, Roll::Minute, Roll::Hour, Roll::Day]);
+    let cfg = Cfg { dir: "logs".into(), prefix: "app".into(), ext: "log".into(), roll, max_files, max_size, sep };
+    // 2024-02-29T23:58:30Z plus up to two minutes, so minute/hour/day boundaries are close
+    let start = (days_from_civil(2024, 2, 29) as u64 * 86_400 + 86_400 - 90) * 1_000_000_000 + g.below(120_000) * 1_000_000;
+    let n_batches = 1 + g.usize(12);
+    let mut steps = Vec::new();
+    let mut recs: Vec<Vec<u8>> = Vec::new();
+    for b in 0..n_batches {
+        if b > 0 && g.chance(1, 5) {
+            steps.push(Step::Restart { reuse: g.bool() });
+        }
+        let n = match g.below(4) {
+            0 => 1,
+            1 => 2,
+            _ => 1 + g.usize(8),
+        };
+        let mut ids = Vec::new();
+        for k in 0..n {
+            let plen = match g.below(8) {
+                0 => 0,
+                1 => 1,
+                2 | 3 => g.usize(16),
+                4 | 5 => g.usize(200),
+                6 => g.usize(1024),
+                _ => g.usize(4097),
+            };
+            let mut rec = format!("{:x}.{:x}:{}:", b, k, plen).into_bytes();
+            let ascii = g.bool();
+            for _ in 0..plen {
+                let mut c = if ascii { 0x20 + g.below(95) as u8 } else { g.below(256) as u8 };
+                if c == sepb {
+                    c = b'_';
+                }
+                rec.push(c);
+            }
+            rec.push(sepb);
+            ids.push(recs.len());
+            recs.push(rec);
+        }
+        let adv_ms = match g.below(6) {
+            0 => 0,
+            1 | 2 => g.below(50),
+            3 => g.below(30_000),
+            4 => 60_000 + g.below(60_000),
+            _ => g.below(5_000_000),
+        };
+        let retry_adv_ms = *g.pick(&[0u64, 0, 7, 700, 61_000]);
+        steps.push(Step::Batch { adv_ms, retry_adv_ms, recs: ids });
+    }
+    Hist { idx, cfg, reuse0: g.bool(), start, dir_exists: g.bool(), steps, recs }
+}
+
+impl Hist {
+    fn to_json(&self) -> Json {
+        json!({
+            "config": self.cfg.to_json(), "reuse_files": self.reuse0, "start_unix_nanos": self.start,
+            "dir_exists": self.dir_exists,
+            "steps": self.steps.iter().map(|s| match s {
+                Step::Batch { adv_ms, retry_adv_ms, recs } => json!({"batch": recs.iter().map(|r| self.recs[*r].len()).collect::<Vec<_>>(),
+                    "clock_advance_ms": adv_ms, "retry_advance_ms": retry_adv_ms}),
+                Step::Restart { reuse } => json!({"restart": {"reuse_files": reuse}}),
+            }).collect::<Vec<_>>(),
+        })
+    }
+}
+
+#[derive(Clone, Debug)]
+struct Plan {
+    faults: Vec<Fault>,
+    loss: Loss,
+    crash_reuse: bool,
+    loss_seed: u64,
+}
+
+impl Plan {
+    fn none() -> Plan {
+        Plan { faults: Vec::new(), loss: Loss::All, crash_reuse: false, loss_seed: 0 }
+    }
+
+    fn to_json(&self) -> Json {
+        json!({"faults": self.faults.iter().map(|f| json!([f.at, f.kind.name()])).collect::<Vec<_>>(),
+               "loss": self.loss.name(), "crash_restart_reuse": self.crash_reuse, "loss_seed": self.loss_seed})
+    }
+
+    fn from_json(j: &Json) -> Option<Plan> {
+        let faults = j
+            .get("faults")?
+            .as_array()?
+            .iter()
+            .filter_map(|f| Some(Fault { at: f.get(0)?.as_u64()? as usize, kind: FaultKind::from_name(f.get(1)?.as_str()?)? }))
+            .collect();
+        Some(Plan {
+            faults,
+            loss: Loss::from_name(j.get("loss")?.as_str()?)?,
+            crash_reuse: j.get("crash_restart_reuse")?.as_bool()?,
+            loss_seed: j.get("loss_seed")?.as_u64()?,
+        })
+    }
+}
+
+struct Outcome {
+    ops: usize,
+    hits: Vec<(usize, FaultKind, OpKind)>,
+    /// (oracle, message)
+    problems: Vec<(&'static str, String)>,
+    acked_batches: u64,
+    failed_then_ok: u64,
+    given_up: u64,
+    crashes: u64,
+    retried_records_verified: u64,
+    pieces_checked: u64,
+    truncated_pieces_justified: u64,
+    op_kinds: Vec<OpKind>,
+}
+
+struct Oracle<'a> {
+    h: &'a Hist,
+    /// body (without separator) -> record id
+    bodies: HashMap<&'a [u8], usize>,
+    grave_seen: usize,
+    grave_durable: HashSet<usize>,
+}
+
+impl<'a> Oracle<'a> {
+    fn new(h: &'a Hist) -> Self {
+        let mut bodies = HashMap::new();
+        for (i, r) in h.recs.iter().enumerate() {
+            bodies.insert(&r[..r.len() - 1], i);
+        }
+        Oracle { h, bodies, grave_seen: 0, grave_durable: HashSet::new() }
+    }
+
+    /// Returns the set of records that are complete inside synced bytes.
+    fn check(&mut self, fs: &FakeFs, acked: &[bool], out: &mut Outcome, when: &str) -> HashSet<usize> {
+        let sep = self.h.cfg.sep[0];
+        let st = fs.lock();
+        let mut durable: HashSet<usize> = HashSet::new();
+        // graveyard: files deleted through the API keep counting for (1) with what was synced then
+        while self.grave_seen < st.graveyard.len() {
+            let (_, bytes) = &st.graveyard[self.grave_seen];
+            let mut s = 0;
+            for (i, b) in bytes.iter().enumerate() {
+                if *b == sep {
+                    if let Some(id) = self.bodies.get(&bytes[s..i]) {
+                        self.grave_durable.insert(*id);
+                    }
+                    s = i + 1;
+                }
+            }
+            self.grave_seen += 1;
+        }
+        for (path, node) in st.files.iter() {
+            let content = node.content();
+            let synced = node.synced.len();
+            let mut s = 0usize;
+            let mut i = 0usize;
+            loop {
+                let terminated = i < content.len();
+                if i == content.len() || content[i] == sep {
+                    let piece = &content[s..i];
+                    out.pieces_checked += 1;
+                    if !piece.is_empty() {
+                        let complete = if terminated { self.bodies.get(piece).copied() } else { None };
+                        if let Some(id) = complete {
+                            if i + 1 <= synced {
+                                durable.insert(id);
+                            }
+                        } else {
+                            // must be a truncated record justified by a cut at exactly this offset
+                            let mut justified = false;
+                            for c in st.cuts.iter().filter(|c| c.path == *path && c.offset == i) {
+                                let upto = c.rest.iter().position(|b| *b == sep).map(|p| p + 1).unwrap_or(c.rest.len());
+                                let mut cand = piece.to_vec();
+                                cand.extend_from_slice(&c.rest[..upto]);
+                                if cand.last() == Some(&sep) && self.bodies.contains_key(&cand[..cand.len() - 1]) {
+                                    justified = true;
+                                    break;
+                                }
+                            }
+                            if justified {
+                                out.truncated_pieces_justified += 1;
+                            } else if out.problems.len() < 4 {
+                                let is_prefix = self.h.recs.iter().any(|r| r.len() > piece.len() && r.starts_with(piece));
+                                let (oracle, desc) = if is_prefix {
+                                    ("truncated-record-without-fault-at-offset", "is a proper prefix of a submitted record but no interrupted write / crash cut was logged at this offset")
+                                } else {
+                                    ("record-mangled", "is neither a submitted record nor a prefix of one (bytes of different records run together, or foreign bytes)")
+                                };
+                                out.problems.push((
+                                    oracle,
+                                    format!(
+                                        "{}: file {} piece at [{}, {}) ({} bytes, starts {:?}) {}",
+                                        when,
+                                        path,
+                                        s,
+                                        i,
+                                        piece.len(),
+                                        show_bytes(&piece[..piece.len().min(24)]),
+                                        desc
+                                    ),
+                                ));
+                            }
+                        }
+                    }
+                    s = i + 1;
+                }
+                if i >= content.len() {
+                    break;
+                }
+                i += 1;
+            }
+        }
+        // (1)
+        for (id, a) in acked.iter().enumerate() {
+            if *a && !durable.contains(&id) && !self.grave_durable.contains(&id) {
+                if out.problems.len() < 4 {
+                    let rec = &self.h.recs[id];
+                    let somewhere_unsynced = st.files.values().any(|n| {
+                        let c = n.content();
+                        c.windows(rec.len()).any(|w| w == &rec[..])
+                    });
+                    out.problems.push((
+                        if somewhere_unsynced { "ack-not-synced" } else { "ack-lost" },
+                        format!(
+                            "{}: record {:?} ({} bytes) of an acknowledged batch is not a complete record in synced content ({})",
+                            when,
+                            show_bytes(&rec[..rec.len().min(16)]),
+                            rec.len(),
+                            if somewhere_unsynced { "it exists only in unsynced bytes" } else { "it is in no file at all" }
+                        ),
+                    ));
+                }
+                break;
+            }
+        }
+        durable
+    }
+}
+
+fn run(h: &Hist, plan: &Plan) -> Outcome {
+    let fs = FakeFs::new(h.idx * 7919 + 13);
+    if h.dir_exists {
+        fs.add_dir(&h.cfg.dir);
+    }
+    fs.set_plan(plan.faults.clone());
+    let clock = FakeClock::new(h.start);
+    let ids = IdRng::new(h.idx + 1, IdMode::Counting);
+    let mut rig = Rig::new(fs.clone(), clock.clone(), ids, h.cfg.clone());
+    rig.start(h.reuse0);
+    let mut loss_rng = Rng::stream(plan.loss_seed, &[10, 9, h.idx]);
+    let mut out = Outcome {
+        ops: 0,
+        hits: Vec::new(),
+        problems: Vec::new(),
+        acked_batches: 0,
+        failed_then_ok: 0,
+        given_up: 0,
+        crashes: 0,
+        retried_records_verified: 0,
+        pieces_checked: 0,
+        truncated_pieces_justified: 0,
+        op_kinds: Vec::new(),
+    };
+    let mut oracle = Oracle::new(h);
+    let mut acked = vec![false; h.recs.len()];
+    let mut batch_no = 0u64;
+    'steps: for step in &h.steps {
+        match step {
+            Step::Restart { reuse } => {
+                rig.start(*reuse);
+                oracle.check(&fs, &acked, &mut out, "after restart");
+            }
+            Step::Batch { adv_ms, retry_adv_ms, recs } => {
+                batch_no += 1;
+                clock.advance(adv_ms * 1_000_000);
+                let mut pending: Vec<Box<[u8]>> = recs.iter().map(|r| h.recs[*r].clone().into_boxed_slice()).collect();
+                let mut attempts = 0usize;
+                loop {
+                    attempts += 1;
+                    fs.set_tag(batch_no * 16 + attempts as u64);
+                    let res = rig.attempt(std::mem::take(&mut pending));
+                    let when = format!("batch {} attempt {} -> {}", batch_no, attempts, res.name());
+                    match res {
+                        Attempt::Ok => {
+                            for r in recs {
+                                acked[*r] = true;
+                            }
+                            out.acked_batches += 1;
+                            let durable = oracle.check(&fs, &acked, &mut out, &when);
+                            if attempts > 1 {
+                                out.failed_then_ok += 1;
+                                out.retried_records_verified += recs.iter().filter(|r| durable.contains(r)).count() as u64;
+                            }
+                            break;
+                        }
+                        Attempt::Retry(rem) => {
+                            oracle.check(&fs, &acked, &mut out, &when);
+                            if attempts > MAX_RETRIES {
+                                out.given_up += 1;
+                                break;
+                            }
+                            clock.advance(retry_adv_ms * 1_000_000);
+                            pending = rem;
+                        }
+                        Attempt::GiveUp => {
+                            out.given_up += 1;
+                            oracle.check(&fs, &acked, &mut out, &when);
+                            break;
+                        }
+                        Attempt::Crash => {
+                            out.crashes += 1;
+                            fs.crash(plan.loss, &mut loss_rng);
+                            oracle.check(&fs, &acked, &mut out, &format!("{} (after the crash, loss model {})", when, plan.loss.name()));
+                            rig.start(plan.crash_reuse);
+                            break;
+                        }
+                        Attempt::Panic(msg) => {
+                            out.problems.push(("panic", format!("{}: the worker panicked: {}", when, msg)));
+                            break 'steps;
+                        }
+                    }
+                }
+            }
+        }
+        if !out.problems.is_empty() {
+            break;
+        }
+    }
+    let st = fs.lock();
+    out.ops = st.log.len();
+    out.hits = st.hits.clone();
+    out.op_kinds = st.log.iter().map(|o| o.kind).collect();
+    out
+}
+
+fn fault_desc(out: &Outcome, plan: &Plan) -> String {
+    if out.hits.is_empty() {
+        return "no-fault".into();
+    }
+    let mut parts: Vec<String> = out.hits.iter().take(3).map(|(_, k, o)| format!("{}@{}", k.name(), o.name())).collect();
+    if out.hits.iter().any(|(_, k, _)| *k == FaultKind::Crash) {
+        parts.push(format!("restart={}", if plan.crash_reuse { "reuse" } else { "fresh" }));
+    }
+    parts.join("+")
+}
+
+fn evaluate(r: &mut Report, seed: u64, h: &Hist, plan: &Plan, variant: u64) -> Outcome {
+    let out = run(h, plan);
+    r.eval();
+    r.observe("on_batch-acknowledged", out.acked_batches);
+    r.observe("batches-failed-then-retried-to-ok", out.failed_then_ok);
+    r.observe("batches-given-up", out.given_up);
+    r.observe("crashes", out.crashes);
+    r.observe("file-pieces-parsed", out.pieces_checked);
+    r.observe("truncated-pieces-justified-by-a-cut", out.truncated_pieces_justified);
+    r.observe("retried-records-found-complete-and-synced", out.retried_records_verified);
+    for (at, k, o) in &out.hits {
+        r.observe(&format!("fault-hit:{}@{}", k.name(), o.name()), 1);
+        if plan.faults.len() == 1 {
+            r.nontrivial(&(h.idx, *at, variant));
+        }
+    }
+    if plan.faults.len() > 1 && out.hits.len() > 1 {
+        r.nontrivial(&(h.idx, plan.faults.iter().map(|f| (f.at, f.kind)).collect::<Vec<_>>(), variant));
+    }
+    for (oracle, msg) in &out.problems {
+        r.violation(
+            &format!("C10:{}:{}", oracle, fault_desc(&out, plan)),
+            msg,
+            json!({"seed": seed, "history": h.idx, "plan": plan.to_json(), "history_detail": h.to_json()}),
+        );
+    }
+    out
+}
+
+/// All single-fault plans for op `at` of kind `kind`: (plan, variant code).
+fn plans_for(at: usize, kind: OpKind, h: &Hist) -> Vec<(Plan, u64)> {
+    let mut v = Vec::new();
+    let mk = |k: FaultKind, loss: Loss, reuse: bool| Plan { faults: vec![Fault { at, kind: k }], loss, crash_reuse: reuse, loss_seed: h.idx * 131 + at as u64 };
+    v.push((mk(FaultKind::Error, Loss::All, false), 0));
+    if kind == OpKind::Write {
+        v.push((mk(FaultKind::ShortOne, Loss::All, false), 1));
+        v.push((mk(FaultKind::ShortMost, Loss::All, false), 2));
+        v.push((mk(FaultKind::ShortMid, Loss::All, true), 3));
+        v.push((mk(FaultKind::ShortOk, Loss::All, false), 4));
+    }
+    let mut code = 10;
+    for loss in [Loss::All, Loss::Nothing, Loss::Seeded] {
+        for reuse in [true, false] {
+            v.push((mk(FaultKind::Crash, loss, reuse), code));
+            code += 1;
+        }
+    }
+    v
+}
+
+fn main() {
+    let args = Args::parse();
+    let mut r = Report::new(
+        "C10",
+        &args,
+        "one evaluation = one replay of a whole batch history under one fault plan with the durability/record oracle run after every attempt, restart and crash; \
+         non-trivial = distinct (history, op index, fault kind variant) triples whose fault was actually injected while the worker was processing a batch \
+         (records in flight), plus distinct multi-fault plans in which at least two faults were hit",
+    );
+    let seed = args.seed;
+
+    if let Some(path) = &args.replay {
+        let case = load_replay(path);
+        let hidx = case.get("history").and_then(|v| v.as_u64()).unwrap_or(0);
+        let cseed = case.get("seed").and_then(|v| v.as_u64()).unwrap_or(seed);
+        let plan = case.get("plan").and_then(Plan::from_json).unwrap_or_else(Plan::none);
+        let h = gen_history(cseed, hidx);
+        evaluate(&mut r, cseed, &h, &plan, 0);
+        evaluate(&mut r, cseed, &h, &Plan::none(), 99);
+        r.observe("replay", 1);
+        std::process::exit(r.finish());
+    }
+
+    let n_hist = args.n(60, 1500);
+    let n_multi = args.n(60, 400);
+
+    // pass 1: fault-free runs (oracle on) to count the operations of every history
+    let hists: Vec<Hist> = (0..n_hist).map(|i| gen_history(seed, i)).collect();
+    let mut work: Vec<(usize, usize, OpKind)> = Vec::new();
+    for (hi, h) in hists.iter().enumerate() {
+        let out = evaluate(&mut r, seed, h, &Plan::none(), 99);
+        r.observe("fault-free-ops", out.ops as u64);
+        if hi < 2 {
+            let hj = h.to_json();
+            let ops = out.ops;
+            r.sample(move || json!({"history": hj, "fault_free_ops": ops}));
+        }
+        for (at, k) in out.op_kinds.iter().enumerate() {
+            work.push((hi, at, *k));
+        }
+        // one op past the end: nothing to hit, shows that an unhit fault is not counted
+    }
+    r.set("histories", json!(n_hist));
+    r.set("single_fault_sites", json!(work.len()));
+
+    // pass 2: every op index x every fault kind
+    let work_ref = &work;
+    let hists_ref = &hists;
+    par_cases(&mut r, &args, work.len() as u64, |i, r| {
+        let (hi, at, kind) = work_ref[i as usize];
+        let h = &hists_ref[hi];
+        for (plan, variant) in plans_for(at, kind, h) {
+            let out = evaluate(r, seed, h, &plan, variant);
+            if out.hits.is_empty() {
+                r.inconclusive(format!("history {} op {}: planned fault was never reached (run is not deterministic?)", h.idx, at));
+            }
+            if r.wants_sample() && i % 977 == 5 {
+                let (pj, hits) = (plan.to_json(), out.hits.len());
+                let hidx = h.idx;
+                r.sample(move || json!({"history": hidx, "plan": pj, "faults_hit": hits}));
+            }
+        }
+    });
+    r.exhaustive("for every generated history: every filesystem-operation index of its fault-free run x {error, 4 short-write splits on writes, crash x 3 loss models x 2 restart modes}");
+
+    // pass 3: seeded sequences of 2-3 faults
+    par_cases(&mut r, &args, hists.len() as u64, |hi, r| {
+        let h = &hists_ref[hi as usize];
+        let n_ops = work_ref.iter().filter(|w| w.0 == hi as usize).count();
+        for m in 0..n_multi {
+            let mut g = Rng::stream(seed, &[10, 3, h.idx, m]);
+            let k = 2 + g.usize(2);
+            let mut faults = Vec::new();
+            let mut at = g.usize(n_ops.max(1));
+            for _ in 0..k {
+                let kind = *g.pick(&[
+                    FaultKind::Error,
+                    FaultKind::Error,
+                    FaultKind::ShortOne,
+                    FaultKind::ShortMid,
+                    FaultKind::ShortMost,
+                    FaultKind::ShortOk,
+                    FaultKind::Crash,
+                    FaultKind::Crash,
+                ]);
+                faults.push(Fault { at, kind });
+                at += 1 + match g.below(3) {
+                    0 => 0,
+                    1 => g.usize(6),
+                    _ => g.usize(n_ops.max(1)),
+                };
+            }
+            let plan = Plan { faults, loss: *g.pick(&[Loss::All, Loss::Nothing, Loss::Seeded, Loss::Seeded]), crash_reuse: g.bool(), loss_seed: g.next() };
+            evaluate(r, seed, h, &plan, 1000 + m);
+        }
+    });
+
+    std::process::exit(r.finish());
+}
